@@ -37,6 +37,17 @@ def term_rank(t):
     return (ParseUtils.next_str(t).upper() if t.data == "ijust" else str(t.children[1]).upper())
 
 
+# ghost witnesses recomputed from the result when the real function is run natively (the ghost appends cannot be
+# interleaved with CPython's execution): first position, in document order, at which each returned rank occurs
+_NATIVE_WITNESS = """
+g_wi = []
+g_wp = []
+for _x in result:
+    _w = [(i, p) for i, a in enumerate(term.find_data('ranks')) for p in range(ATL(a)) if ATR(a, p) == _x]
+    g_wi.append(_w[0][0] if _w else -1)
+    g_wp.append(_w[0][1] if _w else -1)
+"""
+
 _OBS = dict(assumed=True, observer=True)
 CONTRACTS = {
     "Tree.find_data": dict(params=["self", "data"], returns="List[Tree]",
@@ -95,6 +106,7 @@ CONTRACTS = {
     # ------------------------------------------------------------------ C19: ranks in the order written
     "Equation.__get_tensor_ranks": dict(
         pure=True, fresh_result=True,
+        naming=[("named", "len(result) == ATL(ranks) and all(result[p] == ATR(ranks, p) for p in range(len(result)))")],
         ensures=[
             ("count", "len(result) == term_off(ranks, len(ranks.children))"),
             ("document_order",
@@ -122,8 +134,26 @@ CONTRACTS = {
 
 # ---------------------------------------------------------------- native side
 def native_globals():
+    from collections import Counter
     from teaal.parse.utils import ParseUtils
-    return {"ParseUtils": ParseUtils}
+    from teaal.ir.equation import Equation
+
+    def atl(ranks):
+        return len(Equation._Equation__get_tensor_ranks(ranks))
+
+    def atr(ranks, p):
+        return Equation._Equation__get_tensor_ranks(ranks)[p]
+
+    def trk(term):          # first appearance over the accesses of the term, computed independently of the code
+        out = []
+        for r in term.find_data("ranks"):
+            for x in Equation._Equation__get_tensor_ranks(r):
+                if x not in out:
+                    out.append(x)
+        return tuple(out)
+    return {"ParseUtils": ParseUtils, "ATL": atl, "ATR": atr, "TRK": trk, "TRC": lambda t: Counter(trk(t))}
+
+
 
 
 _EINSUMS = [
@@ -147,12 +177,32 @@ def _gen_tensor_ranks():
             yield None, (ranks,)
 
 
-GEN = {"Equation.__get_tensor_ranks": _gen_tensor_ranks}
+def _gen_term_ranks():
+    from teaal.parse.equation import EquationParser
+    for e in _EINSUMS + ["Z[m] = A[k, m] * B[m, k, j] * C[j, n, k]", "Z[a] = A[b, a, c] * B[c, d] * C[d, b, e]"]:
+        tree = EquationParser.parse(e)
+        for term in list(tree.find_data("times")) + list(tree.find_data("take")):
+            yield None, (term,)
+
+
+GEN = {"Equation.__get_tensor_ranks": _gen_tensor_ranks, "Equation.__get_term_ranks": _gen_term_ranks}
 
 
 # ---------------------------------------------------------------- C18: terms over different rank sets
 UF = {"TRC": (["V"], "V"),      # Counter of the ranks of one term (abstract value determined by the term)
-      "TRK": (["V"], "V")}      # the ranks of one term as a sequence (abstract key determined by the term)
+      "TRK": (["V"], "V"),      # the ranks of one term as a sequence (abstract key determined by the term)
+      "ATL": (["V"], "Int"),    # number of ranks of one access  (= len(__get_tensor_ranks(ranks)))
+      "ATR": (["V", "Int"], "Str")}   # p-th rank of one access   (= __get_tensor_ranks(ranks)[p])
+
+AXIOMS = ["forall(lambda x: ATL(x) >= 0)"]
+
+
+def lex_lt(i, p, j, q):
+    return i < j or (i == j and p < q)
+
+
+def accs_of(term):
+    return term.find_data("ranks")
 
 
 def out_ranks_of(eq):
@@ -164,9 +214,51 @@ def all_terms(eq):
 
 
 CONTRACTS.update({
+    # first-appearance order across the accesses of one term (C19): the body is proved against a specification in
+    # terms of ATL / ATR (length / p-th rank of one access as returned by __get_tensor_ranks, itself proved to be the
+    # document order); witnesses are ghost lists (access index, position) appended next to the real append
     "Equation.__get_term_ranks": dict(
-        pure=True, fresh_result=True, assumed_body=True,
-        ensures=[("multiset", "Counter(result) == TRC(term)"), ("sequence", "seq_key(result) == TRK(term)")],
+        pure=True, fresh_result=True,
+        naming=[("multiset", "Counter(result) == TRC(term)"), ("sequence", "seq_key(result) == TRK(term)")],
+        ghost_exit_native=_NATIVE_WITNESS,
+        ghost_entry="g_wi = []\ng_wp = []\n",
+        ghost_after={"term_ranks.append(rank)": "g_wi = g_wi + [ko]\ng_wp = g_wp + [ki]\n"},
+        ensures_env="exit",
+        ensures=[
+            ("witnessed", "len(g_wi) == len(result) and len(g_wp) == len(result) and "
+                          "all(0 <= g_wi[t] and g_wi[t] < len(accs_of(term)) and 0 <= g_wp[t] and g_wp[t] < ATL(accs_of(term)[g_wi[t]]) "
+                          "    and result[t] == ATR(accs_of(term)[g_wi[t]], g_wp[t]) for t in range(len(result)))"),
+            ("first_appearance", "all(implies(lex_lt(i, p, g_wi[t], g_wp[t]), ATR(accs_of(term)[i], p) != result[t]) "
+                                 "    for t in range(len(result)) for i in range(len(accs_of(term))) for p in range(ATL(accs_of(term)[i])))"),
+            ("in_order_of_first_appearance", "all(lex_lt(g_wi[t], g_wp[t], g_wi[u], g_wp[u]) for u in range(len(result)) for t in range(u))"),
+            ("complete", "all(ATR(accs_of(term)[i], p) in result for i in range(len(accs_of(term))) for p in range(ATL(accs_of(term)[i])))"),
+            ("no_duplicates", "all(result[t] != result[u] for u in range(len(result)) for t in range(u))"),
+        ],
+        loops={
+            0: dict(idx="ko", modifies=["term_ranks[]"], ghost_vars=["g_wi", "g_wp"],
+                    inv=[("lens", "len(g_wi) == len(term_ranks) and len(g_wp) == len(term_ranks)"),
+                         ("witnessed", "all(0 <= g_wi[t] and g_wi[t] < ko and 0 <= g_wp[t] and g_wp[t] < ATL(accs_of(term)[g_wi[t]]) "
+                                       "    and term_ranks[t] == ATR(accs_of(term)[g_wi[t]], g_wp[t]) for t in range(len(term_ranks)))"),
+                         ("first", "all(implies(lex_lt(i, p, g_wi[t], g_wp[t]), ATR(accs_of(term)[i], p) != term_ranks[t]) "
+                                   "    for t in range(len(term_ranks)) for i in range(len(accs_of(term))) for p in range(ATL(accs_of(term)[i])))"),
+                         ("order", "all(lex_lt(g_wi[t], g_wp[t], g_wi[u], g_wp[u]) for u in range(len(term_ranks)) for t in range(u))"),
+                         ("complete", "all(ATR(accs_of(term)[i], p) in term_ranks for i in range(ko) for p in range(ATL(accs_of(term)[i])))"),
+                         ("nodup", "all(term_ranks[t] != term_ranks[u] for u in range(len(term_ranks)) for t in range(u))"),
+                         ("own", "fresh(term_ranks)")]),
+            1: dict(idx="ki", enum="cur", modifies=["term_ranks[]"], ghost_vars=["g_wi", "g_wp"],
+                    inv=[("cur", "len(cur) == ATL(accs_of(term)[ko]) and all(cur[p] == ATR(accs_of(term)[ko], p) for p in range(len(cur))) "
+                                 "and not same_ref(cur, term_ranks)"),
+                         ("lens", "len(g_wi) == len(term_ranks) and len(g_wp) == len(term_ranks)"),
+                         ("witnessed", "all(0 <= g_wi[t] and 0 <= g_wp[t] and lex_lt(g_wi[t], g_wp[t], ko, ki) and g_wp[t] < ATL(accs_of(term)[g_wi[t]]) "
+                                       "    and term_ranks[t] == ATR(accs_of(term)[g_wi[t]], g_wp[t]) for t in range(len(term_ranks)))"),
+                         ("first", "all(implies(lex_lt(i, p, g_wi[t], g_wp[t]), ATR(accs_of(term)[i], p) != term_ranks[t]) "
+                                   "    for t in range(len(term_ranks)) for i in range(len(accs_of(term))) for p in range(ATL(accs_of(term)[i])))"),
+                         ("order", "all(lex_lt(g_wi[t], g_wp[t], g_wi[u], g_wp[u]) for u in range(len(term_ranks)) for t in range(u))"),
+                         ("complete", "all(ATR(accs_of(term)[i], p) in term_ranks for i in range(ko) for p in range(ATL(accs_of(term)[i]))) and "
+                                      "all(ATR(accs_of(term)[ko], p) in term_ranks for p in range(ki))"),
+                         ("nodup", "all(term_ranks[t] != term_ranks[u] for u in range(len(term_ranks)) for t in range(u))"),
+                         ("own", "fresh(term_ranks)")]),
+        },
     ),
     "Equation.__build_einsum_ranks": dict(
         modifies=["self.einsum_ranks"],
